@@ -104,5 +104,74 @@ theorem reslice_empty (nz : Nat → Bool) : go_univariate_Polynomial_reslice [] 
   simp only [Int.ofNat_eq_natCast, hi, h]
   rfl
 
+/-! ### 3. the mutators: `SetCoefPtr`, `IncrementCoef`, `DecrementCoef`, `removeCoef`
+
+  Each theorem: under the representation invariant `Rep F c` (length `< 2^63`, degree `0 ≤ d < 2^62`, a
+  non-nil value `some v`) the translated method does not panic, its new slice abstracts to the model's
+  operation on the abstraction, and the invariant is PRESERVED.  Element methods: `IsZero = F.isZero`,
+  `IsNonzero = nz` with `Laws F nz`, `Add = F.add`, `Sub = F.sub`, `Neg = F.neg`, `Copy = id`; the field
+  laws needed for the nil-slot branches (where Go stores `val.Copy()` / `val.Neg()` and does not reslice,
+  while the model adds to zero and trims) are explicit hypotheses. -/
+
+private theorem hres (nz : Nat → Bool) : ∀ c : List (Option Nat), c ≠ [] → c.length < 2 ^ 63 →
+    go_univariate_Polynomial_reslice c nz = some (resliceSpec nz c) :=
+  fun _ h0 hl => CodeTies6Proofs.reslice nz h0 hl
+
+/-- `reslice` re-establishes the invariant from "non-empty, entry 0 non-nil" -/
+theorem reslice_rep {F : FOps Nat} {nz : Nat → Bool} (hL : Laws F nz) {c : List (Option Nat)}
+    (h0 : c ≠ []) (hh : c.head? ≠ some none) (hlen : c.length < 2 ^ 63) :
+    ∃ c', go_univariate_Polynomial_reslice c nz = some c' ∧ Rep F c' :=
+  ⟨_, CodeTies6Proofs.reslice nz h0 hlen, Mut.rep_resliceSpec hL h0 hh⟩
+
+/-- THE TIE for `SetCoefPtr(d, val)` -/
+theorem setCoefPtr_tie {F : FOps Nat} {nz : Nat → Bool} (hL : Laws F nz) {c : List (Option Nat)}
+    (hc : Rep F c) (hlen : c.length < 2 ^ 63) {d : Nat} (hd : d < 2 ^ 62) (v : Nat) :
+    ∃ c', go_univariate_Polynomial_SetCoefPtr (f_coefs := c) (method_IsNonzero := nz)
+        (method_IsZero := F.isZero) (deg := (d : Int)) (val := some v) = some c' ∧
+      absC F c' = UPoly.setCoef F (absC F c) d v ∧ Rep F c' :=
+  Mut.setCoefPtr_tie hL (hres nz) hc hlen hd v
+
+/-- THE TIE for `IncrementCoef(d, val)`; `0 + x = x` for the nil-slot branch -/
+theorem incrementCoef_tie {F : FOps Nat} {nz : Nat → Bool} (hL : Laws F nz)
+    (hadd0 : ∀ x, F.add F.zero x = x) {c : List (Option Nat)} (hc : Rep F c)
+    (hlen : c.length < 2 ^ 63) {d : Nat} (hd : d < 2 ^ 62) (v : Nat) :
+    ∃ c', go_univariate_Polynomial_IncrementCoef (f_coefs := c) (method_IsNonzero := nz)
+        (method_Add := F.add) (method_Copy := id) (method_IsZero := F.isZero) (deg := (d : Int))
+        (val := some v) = some c' ∧
+      absC F c' = UPoly.incCoef F (absC F c) d v ∧ Rep F c' :=
+  Mut.incrementCoef_tie hL (hres nz) hadd0 hc hlen hd v
+
+/-- THE TIE for `DecrementCoef(d, val)`; `0 - x = -x`, and `-x ≠ 0` for `x ≠ 0` (invariant when growing) -/
+theorem decrementCoef_tie {F : FOps Nat} {nz : Nat → Bool} (hL : Laws F nz)
+    (hsub0 : ∀ x, F.sub F.zero x = F.neg x)
+    (hnegz : ∀ x, F.isZero x = false → F.isZero (F.neg x) = false) {c : List (Option Nat)}
+    (hc : Rep F c) (hlen : c.length < 2 ^ 63) {d : Nat} (hd : d < 2 ^ 62) (v : Nat) :
+    ∃ c', go_univariate_Polynomial_DecrementCoef (f_coefs := c) (method_IsNonzero := nz)
+        (method_Sub := F.sub) (method_Neg := F.neg) (method_IsZero := F.isZero) (deg := (d : Int))
+        (val := some v) = some c' ∧
+      absC F c' = UPoly.decCoef F (absC F c) d v ∧ Rep F c' :=
+  Mut.decrementCoef_tie hL (hres nz) hsub0 hnegz hc hlen hd v
+
+/-- THE TIE for `removeCoef(d)` (`SetUnsigned(0)` = the field's zero) when the slot, if inside the slice,
+    is not nil … -/
+theorem removeCoef_tie {F : FOps Nat} {nz : Nat → Bool} (hL : Laws F nz) {c : List (Option Nat)}
+    (hc : Rep F c) (hlen : c.length < 2 ^ 63) {d : Nat}
+    (hslot : d < c.length → (c.getD d none).isSome = true) :
+    ∃ c', go_univariate_Polynomial_removeCoef (f_coefs := c) (method_IsNonzero := nz)
+        (method_SetUnsigned := fun _ _ => F.zero) (deg := (d : Int)) = some c' ∧
+      absC F c' = UPoly.removeCoef F (absC F c) d ∧ Rep F c' :=
+  Mut.removeCoef_tie hL (hres nz) hc hlen hslot
+
+/-- … and on a nil slot inside the slice the Go code dereferences nil (a finding about the code: the
+    model's `removeCoef` has no such case) -/
+theorem removeCoef_panics (nz : Nat → Bool) (su : Nat → Nat → Nat) {c : List (Option Nat)} {d : Nat}
+    (hlen : c.length < 2 ^ 63) (hin : d < c.length) (hs : c.getD d none = none) :
+    go_univariate_Polynomial_removeCoef c nz su (d : Int) = none :=
+  Mut.removeCoef_panic su hlen hin hs
+
+/-- non-vacuity: GF(5), `1 + 2x²` stored as `[1, nil, 2]` -/
+example : Laws Mut.F5 Mut.nz5 ∧ Rep Mut.F5 Mut.c5 ∧ Mut.c5.length < 2 ^ 63 ∧ (2 : Nat) < 2 ^ 62 :=
+  ⟨Mut.laws5, Mut.rep5, by decide, by decide⟩
+
 end CodeTies6
 end Algobra
